@@ -82,6 +82,24 @@ theorem le_lcp_iff {α} [DecidableEq α] : ∀ (n : Nat) (a b : List α),
         omega
     · simp [e]
 
+theorem lcp_take {α} [DecidableEq α] (x y : List α) : x.take (lcp x y) = y.take (lcp x y) :=
+  ((le_lcp_iff (lcp x y) x y).1 (Nat.le_refl _)).2.2
+
+/-- inside both lists, the position `lcp x y` holds different elements -/
+theorem lcp_getElem?_ne {α} [DecidableEq α] : ∀ (x y : List α), lcp x y < x.length → lcp x y < y.length →
+    x[lcp x y]? ≠ y[lcp x y]?
+  | [], _, h, _ => by simp at h
+  | _ :: _, [], _, h => by simp at h
+  | u :: x, v :: y, h1, h2 => by
+    rw [lcp_cons] at h1 h2 ⊢
+    by_cases e : u = v
+    · subst e
+      simp only [if_true, List.length_cons] at h1 h2 ⊢
+      have := lcp_getElem?_ne x y (by omega) (by omega)
+      rw [Nat.add_comm 1, List.getElem?_cons_succ, List.getElem?_cons_succ]
+      exact this
+    · simp [e]
+
 /-- ultrametric inequality, in the form used to change the reference key -/
 theorem min_lcp_swap {α} [DecidableEq α] {m : Nat} {a b : List α} (h : m ≤ lcp a b) (x : List α) :
     min m (lcp a x) = min m (lcp b x) := by
